@@ -235,6 +235,10 @@ type vf25Dir struct {
 	hitDetail   string
 	closed      bool
 	bufIdx      int
+	// from the tampered record on: the records as written and the byte stream as actually delivered
+	origAfter   [][]byte
+	wireAfter   []byte
+	intactAfter int
 }
 
 func vf25KeyUpdate(c *Conn, request bool) error {
@@ -262,6 +266,10 @@ func (d *vf25Dir) install() {
 		lg := vf25RecLog{idx: len(d.recs), tag: d.curTag, bodyLen: len(rec) - 5, typ: rec[0]}
 		d.recs = append(d.recs, lg)
 		f := d.fault
+		if d.hit {
+			d.origAfter = append(d.origAfter, append([]byte(nil), rec...))
+			d.wireAfter = append(d.wireAfter, rec...)
+		}
 		if f == nil || f.Kind == "none" || d.hit || lg.idx != f.K {
 			return rec
 		}
@@ -296,19 +304,37 @@ func (d *vf25Dir) install() {
 		}
 		d.hit = true
 		d.hitRec = lg
+		d.origAfter = [][]byte{append([]byte(nil), rec...)}
+		d.wireAfter = append([]byte(nil), out...)
 		return out
 	}
 }
 
 // bound on the number of bytes the reader may legitimately deliver once the fault has been injected
 func (d *vf25Dir) bound(overhead int) int {
-	if d.hitRec.tag < 0 {
-		return len(d.sent)
+	b := len(d.sent)
+	if d.hitRec.tag >= 0 {
+		b = d.opStartSent
+		for _, r := range d.recs {
+			if r.tag == d.hitRec.tag && r.idx < d.hitRec.idx {
+				if p := r.bodyLen - overhead; p > 0 {
+					b += p
+				}
+			}
+		}
 	}
-	b := d.opStartSent
-	for _, r := range d.recs {
-		if r.tag == d.hitRec.tag && r.idx < d.hitRec.idx {
-			if p := r.bodyLen - overhead; p > 0 {
+	// A truncation whose removed bytes happen to equal the bytes that follow (e.g. the last ciphertext byte is 0x17
+	// and the next record starts with 0x17) leaves the record intact on the wire and really tampers with a later
+	// one: records that the reader sees byte-for-byte unchanged at their original offset may be delivered.
+	off := 0
+	for i, orig := range d.origAfter {
+		if off+len(orig) > len(d.wireAfter) || !bytes.Equal(d.wireAfter[off:off+len(orig)], orig) {
+			break
+		}
+		off += len(orig)
+		d.intactAfter = i + 1
+		if d.recs[d.hitRec.idx+i].tag >= 0 {
+			if p := len(orig) - 5 - overhead; p > 0 {
 				b += p
 			}
 		}
